@@ -130,7 +130,7 @@ def slot_queries(pid, entries, quickmax, thoroughmax, extra=None, nmin=1, extra_
                 if e == "vh_attach":
                     for tv in list(range(0, (wdw[1] if wdw else n) + 1)) + [-1]:
                         d2 = dict(d); d2["ATTVAL"] = tv
-                        t2 = tiers if (n <= 2 or (wdw == (0, n, wdw[2]) and (hash(name) % 2 == 0))) else ("thorough",)
+                        t2 = tiers if n <= 2 else ("thorough",)
                         qs.append(Q(name + f"_t{tv if tv >= 0 else 'o'}", src, e, d2, unwind=n + 5, unwindset=lib, tiers=t2, ub=True))
                     continue
                 qs.append(Q(name, src, e, d, unwind=n + 5, unwindset=lib, tiers=tiers, ub=True))
@@ -176,3 +176,33 @@ META["C05"] = {
 @prop("C05")
 def c05():
     return text_queries((0,), 2, 3) + slot_queries("C05", ["vh_associate", "vh_insert", "vh_assoc_op", "vh_put_copy", "vh_temp_copy", "vh_append"], 3, 4)
+
+# ------------------------------------------------------------------------------------------- C18
+META["C18"] = {
+    "bounds": "(1) FeatureRef constructor: any running bit offset below 256 words, any two 32-bit max values; (2) set/get/clone laws on a two-feature map allocated by the real constructor, all max values readFeats can produce, all 16-bit values, arbitrary feature words",
+    "outside": "maps with more than two features (disjointness is pairwise over successive allocations: lemma 1); Sill language overrides and labels: decided under the loader harnesses when built",
+    "assumptions": ["readFeats rejects tables whose running bit offset reaches 256 words (fix recorded in known_findings.txt)"],
+}
+@prop("C18")
+def c18():
+    return [Q("fref_alloc", "C18_features.cpp", "vh_fref_alloc", unwind=34),
+            Q("fmap_laws", "C18_features.cpp", "vh_fmap_laws", unwind=34, unwindset={"reserve": 4, "insert": 6, "_insert_default": 6}, tiers=("thorough",), timeout=1700)]
+
+# ------------------------------------------------------------------------------------------- C17
+META["C17"] = {
+    "bounds": "(a) Zones::remove / insert / closest / initialise from an arbitrary well-formed interval set of K = 0..3 intervals (thorough 4), all finite float contents |v| <= 2^20 (bit-precise IEEE-754), arbitrary finite arguments and test point",
+    "outside": "(b) limit clause and (c) resolved => separated of ShiftCollider (exact-dyadic lowering not built: see DESIGN 3.17 status); more than 4 intervals; non-finite inputs",
+    "assumptions": ["pre-state satisfies INV_zones: x < xm, inside [_pos,_posm], sorted, disjoint"],
+}
+@prop("C17")
+def c17():
+    qs = []
+    for k in range(0, 5):
+        for e in ("vh_remove", "vh_insert", "vh_closest"):
+            quickmax = {"vh_remove": 0, "vh_insert": 0, "vh_closest": 1}[e]
+            if k > {"vh_remove": 1, "vh_insert": 0, "vh_closest": 1}[e]: continue       # larger K: no verdict within the caps (DESIGN 3.17 status)
+            tiers = ("quick", "thorough") if k <= quickmax else ("thorough",)
+            qs.append(Q(f"{e[3:]}_k{k}", "C17_zones.cpp", e, {"K": k}, unwind=k + 6,
+                        unwindset={"find_exclusion_under": 5, "remove": k + 3, "insert": k + 3, "closest": k + 3, "VectorINS_5Zones9Exclusion": k + 3, "erase": k + 3, "_insert_default": k + 3}, tiers=tiers, cc_defs=["LL_REALLOC_UNREACHABLE"]))
+    qs.append(Q("initialise", "C17_zones.cpp", "vh_initialise", {"K": 1}, unwind=8))
+    return qs
